@@ -919,10 +919,10 @@ def _negate_atom(a):
 _PRED = {}
 
 
-def predicate_dnf(crate, name):
+def predicate_dnf(crate, name, any_vis=False):
     """(arg_count, DNF) for a private, loop-free bool fn of the crate: the conditions over its
     parameters under which it returns true (at most 4 disjuncts of at most 4 atoms), else None"""
-    key = (id(crate), name)
+    key = (id(crate), name, any_vis)
     if key in _PRED:
         return _PRED[key]
     _PRED[key] = None
@@ -931,7 +931,7 @@ def predicate_dnf(crate, name):
     if not raws or len(raws) != 1:
         return None
     raw = raws[0]
-    if raw["kind"] not in ("Fn", "AssocFn") or not str(raw.get("vis", "")).startswith("Restricted") or len(raw["blocks"]) > 30:
+    if raw["kind"] not in ("Fn", "AssocFn") or not (any_vis or str(raw.get("vis", "")).startswith("Restricted")) or len(raw["blocks"]) > 30:
         return None
     from .mir import Body
     cb = Body(raw, crate)
@@ -983,16 +983,17 @@ def predicate_dnf(crate, name):
         return None
     res = (cb.arg_count, [tuple(sorted(d, key=repr)) for d in sorted(true, key=repr)])
     _PRED[key] = res
-    INLINED[name] = " | ".join(" & ".join(atom_str(e, v) for e, v in d) for d in res[1])
+    if not any_vis:
+        INLINED[name] = " | ".join(" & ".join(atom_str(e, v) for e, v in d) for d in res[1])
     return res
 
 
-def predicate_alternatives(crate, a):
+def predicate_alternatives(crate, a, any_vis=False):
     """alternatives (tuples of atoms) for atom `pred(args)=bool` when pred has a DNF summary"""
     e, v = a
     if e[0] != "call" or isinstance(e[1], tuple) or not isinstance(v, bool):
         return None
-    summ = predicate_dnf(crate, e[1])
+    summ = predicate_dnf(crate, e[1], any_vis)
     if summ is None or summ[0] != len(e[2]):
         return None
     dnf = [tuple(normalise_atom(subst_params(x, e[2]), val) for (x, val) in d) for d in summ[1]]
